@@ -1,4 +1,67 @@
 import Tfv.Model
+import Tfv.Proofs.Bag
+/-!
+# C20 — type unions and bags reduce without changing meaning, in any insertion order
+Statements only. `le` is any decidable relation that is a partial order on the
+domain `D` the inserted elements come from (instantiated by the subtype order
+of C01 on well-formed concrete types).
+-/
 namespace Tfv.C20
-theorem placeholder : True := trivial
+open Tfv
+
+variable {α : Type}
+
+/-- `le` is a partial order on the elements satisfying `D` -/
+structure POrder (le : α → α → Bool) (D : α → Prop) : Prop where
+  refl : ∀ x, D x → le x x = true
+  trans : ∀ x y z, D x → D y → D z → le x y = true → le y z = true → le x z = true
+  antisymm : ∀ x y, D x → D y → le x y = true → le y x = true → x = y
+
+/-- a union in specific mode keeps exactly the minimal elements of what was inserted -/
+theorem C20_union_specific (le : α → α → Bool) (D : α → Prop) (po : POrder le D)
+    (xs : List α) (hD : ∀ x ∈ xs, D x) (x : α) :
+    x ∈ unionOf le true xs ↔ (x ∈ xs ∧ ∀ y ∈ xs, le y x = true → y = x) :=
+  mem_unionOf_specific le D po.refl po.trans po.antisymm xs hD x
+
+/-- a union in general mode keeps exactly the maximal elements -/
+theorem C20_union_general (le : α → α → Bool) (D : α → Prop) (po : POrder le D)
+    (xs : List α) (hD : ∀ x ∈ xs, D x) (x : α) :
+    x ∈ unionOf le false xs ↔ (x ∈ xs ∧ ∀ y ∈ xs, le x y = true → y = x) :=
+  mem_unionOf_general le D po.refl po.trans po.antisymm xs hD x
+
+/-- the kept set does not depend on the insertion order -/
+theorem C20_union_perm (le : α → α → Bool) (D : α → Prop) (po : POrder le D) (specific : Bool)
+    (xs ys : List α) (hD : ∀ x ∈ xs, D x) (hp : xs.Perm ys) (x : α) :
+    x ∈ unionOf le specific xs ↔ x ∈ unionOf le specific ys :=
+  mem_unionOf_perm le D po.refl po.trans po.antisymm specific xs ys hD hp x
+
+/-- a union never holds the same element twice (it is a set) -/
+theorem C20_union_nodup (le : α → α → Bool) (D : α → Prop) (po : POrder le D) (specific : Bool)
+    (xs : List α) (hD : ∀ x ∈ xs, D x) : (unionOf le specific xs).Nodup :=
+  unionOf_nodup le D po.refl po.trans po.antisymm specific xs hD
+
+/-- a set of present types closed under supertypes -/
+def UpClosed (le : α → α → Bool) (D : α → Prop) (P : α → Prop) : Prop :=
+  ∀ x y, D x → D y → P x → le x y = true → P y
+
+/-- the reduced bag is satisfied by an upward-closed set of present types exactly when
+every inserted (non-empty) requirement is satisfied -/
+theorem C20_bag (le : α → α → Bool) (D : α → Prop) (po : POrder le D)
+    (reqs : List (List α)) (hD : ∀ r ∈ reqs, ∀ x ∈ r, D x)
+    (P : α → Prop) (hP : UpClosed le D P) :
+    satBag (bagOf le reqs) P ↔ ∀ r ∈ reqs, r ≠ [] → ∃ t ∈ r, P t :=
+  satBag_bagOf le D po.refl po.trans po.antisymm P hP reqs hD
+
+/-- hence the verdict of the reduced bag does not depend on the insertion order -/
+theorem C20_bag_perm (le : α → α → Bool) (D : α → Prop) (po : POrder le D)
+    (reqs reqs' : List (List α)) (hD : ∀ r ∈ reqs, ∀ x ∈ r, D x) (hp : reqs.Perm reqs')
+    (P : α → Prop) (hP : UpClosed le D P) :
+    satBag (bagOf le reqs) P ↔ satBag (bagOf le reqs') P :=
+  satBag_bagOf_perm le D po.refl po.trans po.antisymm P hP reqs reqs' hD hp
+
+/-- non-vacuity: divisibility-free toy order `≤` on Nat is a partial order, and a bag over it -/
+example : POrder (fun a b : Nat => decide (a ≤ b)) (fun _ => True) :=
+  ⟨by intro x _; simp, by intro x y z _ _ _; simp; omega, by intro x y _ _; simp; omega⟩
+example : bagOf (fun a b : Nat => decide (a ≤ b)) [[3, 5], [4]] = [[4]] := by decide
+
 end Tfv.C20
